@@ -833,8 +833,7 @@ package compose
 //@   props C16 C09
 //@   after call 3 append: assert[option_forwarded_to_a_nested_graph_is_undesignated] @C16 len(result) >= 1 && is(result[len(result) - 1], "Option") && len(unbox(result[len(result) - 1], "Option").paths) == 0
 //@   requires nodesOK(nodes) && optsOK(opts)
-//@   requires[options_are_values] forall(j int, i int :: 0 <= j && j < len(opts) && 0 <= i && i < len(opts[j].options) ==> opts[j].options[i] != nil)
-//@   note component options are struct values boxed by the WithXxxOption constructors (never a nil interface): reflect.TypeOf of one is a type
+//@   note an option value may be a nil interface (WithLambdaOption takes ...any): reflect.TypeOf of it is the nil type, on which no method may be called
 //@   ensures[fresh] result1 == nil ==> optMapFresh(result0)
 //@   ensures[keys] result1 == nil ==> forall(k string :: in(k, result0) ==> in(k, nodes))
 //@   ensures[err_empty_path] (exists(j int, p int :: 0 <= j && j < len(opts) && 0 <= p && p < len(opts[j].paths) && len(opts[j].paths[p].path) == 0)) ==> result1 != nil
@@ -1008,9 +1007,25 @@ package compose
 
 //@ spec nodesSame(g *graph) bool = forall(k string :: in(k, g.nodes) == old(in(k, g.nodes)) && g.nodes[k] == old(g.nodes[k]))
 
+//@ func (*graphNode).inputType
+//@   props C07
+//@   trusted reads the node's input type: map[string]any under an input key, else the nested graph's or the component's declared type; nil for an untyped pass-through
+//@   pure
+//@ func (*graphNode).outputType
+//@   props C07
+//@   trusted reads the node's output type: map[string]any under an output key, else the nested graph's or the component's declared type; nil for an untyped pass-through
+//@   pure
+
 //@ func (*graph).addNode
-//@   props C20
+//@   props C20 C07
 //@   requires g != nil && g.nodes != nil && node != nil && options != nil && options.nodeOptions != nil
+//@   ghost inT reflect.Type
+//@   ghost outT reflect.Type
+//@   after call node.inputType: ghost inT = result
+//@   after call node.outputType: ghost outT = result
+//@   ensures[pre_handler_yields_the_node_input_type] @C07 err == nil && options.processor != nil && options.processor.statePreHandler != nil && inT != nil ==> options.processor.statePreHandler.outputType == inT
+//@   ensures[post_handler_takes_the_node_output_type] @C07 err == nil && options.processor != nil && options.processor.statePostHandler != nil && outT != nil ==> options.processor.statePostHandler.inputType == outT
+//@   note a state handler sits between a node and its neighbours without a run-time type check of its own: its type has to be the node's type exactly (any for an untyped pass-through), otherwise a value of another type reaches the node and it panics
 //@   modifies g.buildError, map(g.nodes)
 //@   ensures[sticky] old(g.buildError) != nil ==> err == old(g.buildError) && g.buildError == old(g.buildError) && nodesSame(g)
 //@   ensures[compiled] old(g.buildError) == nil && g.compiled ==> err == ErrGraphCompiled && nodesSame(g)
@@ -1915,6 +1930,32 @@ package compose
 //@   after call unpackStreamReader[map[string]any]: ghost inputNotMaps = !result1
 //@   at call packStreamReader: ghost packedAsMaps = typename(arg0) == "*schema.StreamReader[map[string]any]"
 //@   ensures[stream_form_keeps_the_chunk_type] @C04,C15 packedAsMaps || inputNotMaps
+
+//@ func (*Workflow).compile
+//@   props C20
+//@   paths 1
+//@   skip pre frame post loopframe
+//@   note partial: the implicit no-panic obligations of compile's own statements (nil dereferences, nil maps, nil function values) are checked under the shape invariant of a Workflow built by its constructors - in particular an end node named by a branch must be looked up before it is used (an unknown key is an error, not a nil dereference). Callee preconditions, the write sets (the loop write sets are declared as "anything" and trusted) and the outcome of compilation are not checked
+//@   requires[shape] wf != nil && wf.g != nil && wf.g.handlerPreNode != nil && wf.dependencies != nil && forall(d string :: in(d, wf.dependencies) ==> wf.dependencies[d] != nil) && wf.workflowNodes != nil && forall(k string :: in(k, wf.workflowNodes) ==> wf.workflowNodes[k] != nil && wf.workflowNodes[k].dependencySetter != nil && forall(i int :: 0 <= i && i < len(wf.workflowNodes[k].addInputs) ==> wf.workflowNodes[k].addInputs[i] != nil))
+//@   requires[branches] forall(i int :: 0 <= i && i < len(wf.workflowBranches) ==> wf.workflowBranches[i] != nil && wf.workflowBranches[i].GraphBranch != nil)
+//@   loop 1:
+//@     modifies region("F|"), region("S|"), region("MD|"), region("MV|"), region("MC|"), fresh()
+//@     invariant[shape] wf != nil && wf.g != nil && wf.g.handlerPreNode != nil && wf.dependencies != nil && forall(d string :: in(d, wf.dependencies) ==> wf.dependencies[d] != nil) && wf.workflowNodes != nil && forall(k string :: in(k, wf.workflowNodes) ==> wf.workflowNodes[k] != nil && wf.workflowNodes[k].dependencySetter != nil && forall(i int :: 0 <= i && i < len(wf.workflowNodes[k].addInputs) ==> wf.workflowNodes[k].addInputs[i] != nil))
+//@   loop 2:
+//@     modifies region("F|"), region("S|"), region("MD|"), region("MV|"), region("MC|"), fresh()
+//@     invariant[shape] wf != nil && wf.g != nil && wf.g.handlerPreNode != nil && wf.dependencies != nil && forall(d string :: in(d, wf.dependencies) ==> wf.dependencies[d] != nil) && wf.workflowNodes != nil && forall(k string :: in(k, wf.workflowNodes) ==> wf.workflowNodes[k] != nil && wf.workflowNodes[k].dependencySetter != nil && forall(i int :: 0 <= i && i < len(wf.workflowNodes[k].addInputs) ==> wf.workflowNodes[k].addInputs[i] != nil))
+//@   loop 3:
+//@     modifies region("F|"), region("S|"), region("MD|"), region("MV|"), region("MC|"), fresh()
+//@     invariant[shape] wf != nil && wf.g != nil && wf.g.handlerPreNode != nil && wf.dependencies != nil && forall(d string :: in(d, wf.dependencies) ==> wf.dependencies[d] != nil) && wf.workflowNodes != nil && forall(k string :: in(k, wf.workflowNodes) ==> wf.workflowNodes[k] != nil && wf.workflowNodes[k].dependencySetter != nil && forall(i int :: 0 <= i && i < len(wf.workflowNodes[k].addInputs) ==> wf.workflowNodes[k].addInputs[i] != nil))
+//@   loop 4:
+//@     modifies region("F|"), region("S|"), region("MD|"), region("MV|"), region("MC|"), fresh()
+//@     invariant[shape] wf != nil && wf.g != nil && wf.g.handlerPreNode != nil && wf.dependencies != nil && forall(d string :: in(d, wf.dependencies) ==> wf.dependencies[d] != nil) && wf.workflowNodes != nil && forall(k string :: in(k, wf.workflowNodes) ==> wf.workflowNodes[k] != nil && wf.workflowNodes[k].dependencySetter != nil && forall(i int :: 0 <= i && i < len(wf.workflowNodes[k].addInputs) ==> wf.workflowNodes[k].addInputs[i] != nil))
+//@   loop 5:
+//@     modifies region("F|"), region("S|"), region("MD|"), region("MV|"), region("MC|"), fresh()
+//@     invariant[shape] wf != nil && wf.g != nil && wf.g.handlerPreNode != nil && wf.dependencies != nil && forall(d string :: in(d, wf.dependencies) ==> wf.dependencies[d] != nil) && wf.workflowNodes != nil && forall(k string :: in(k, wf.workflowNodes) ==> wf.workflowNodes[k] != nil && wf.workflowNodes[k].dependencySetter != nil && forall(i int :: 0 <= i && i < len(wf.workflowNodes[k].addInputs) ==> wf.workflowNodes[k].addInputs[i] != nil))
+//@   loop 6:
+//@     modifies region("F|"), region("S|"), region("MD|"), region("MV|"), region("MC|"), fresh()
+//@     invariant[shape] wf != nil && wf.g != nil && wf.g.handlerPreNode != nil && wf.dependencies != nil && forall(d string :: in(d, wf.dependencies) ==> wf.dependencies[d] != nil) && wf.workflowNodes != nil && forall(k string :: in(k, wf.workflowNodes) ==> wf.workflowNodes[k] != nil && wf.workflowNodes[k].dependencySetter != nil && forall(i int :: 0 <= i && i < len(wf.workflowNodes[k].addInputs) ==> wf.workflowNodes[k].addInputs[i] != nil))
 
 //@ func (*Workflow).compile$2
 //@   props C04 C09
